@@ -24,6 +24,21 @@ set_option linter.unusedVariables false
 section BN
 variable {α : Type} [Field α] [HasSqrt α]
 
+/-- **Every constructor option is honoured at construction**: a layer built with `affine` owns a weight and a bias (two
+    parameters) exactly when `affine` is set, and running statistics exactly when `track_running_stats` is set — the two options
+    are independent. -/
+theorem init_owns_by_options (c : BNCfg α) (channels : Nat) (affine : Bool) :
+    bnOwns c (bnInit c channels affine)
+      = { weight := affine, bias := affine, runningMean := c.track, runningVar := c.track, params := if affine then 2 else 0 } := by
+  cases affine <;> simp [bnOwns, bnInit]
+
+/-- forwards never create or remove the affine parameters -/
+theorem forward_keeps_owned (c : BNCfg α) (s : BNState α) (xs : List (List α)) :
+    bnOwns c (bnForward c s xs).2 = bnOwns c s := by
+  unfold bnForward bnOwns
+  simp only
+  split <;> rfl
+
 /-- **Eval mode never changes the layer state** (running statistics, counter, flags), accepted
     or rejected. -/
 theorem eval_keeps_state (c : BNCfg α) (s : BNState α) (xs : List (List α)) (h : s.training = false) :
